@@ -233,6 +233,7 @@ typedef struct {
 typedef struct {
 	int setup_rc, hang;
 	int never_fired_step;		/* first step whose awaited callback never came (-1 none) */
+	uint32_t base_live_fds;		/* library-owned descriptors before the pool of this case was created */
 	c06b_step s[C06_MAX_CMDS];
 	tp_res_stats res;
 } c06b_out;
